@@ -9,6 +9,21 @@ CHECKS = {
  "C07": dict(cat="exploration", sec="5.7", tech="exhaustive enumeration of the parameter product and of operation sequences (depth<=3) against an independent reference",
    text="Full product of algorithm x every length 1..N x all 32 bearers x both directions x COUNT and key alphabets, all call sequences of depth 2-3 and all 4x256 SNOW 3G table entries, each compared with an independent implementation written from TS 35.215/35.216/33.401; exhaustive within the stated alphabets, which is what a property over lengths/residues and call histories needs.",
    note="refcrypto (anchored on TS 35.207 set 1, RFC 4493, TS 33.401 C.1, SNOW 3G / UEA2 set 1); keys/COUNTs outside the alphabets not enumerated"),
+ "C05": dict(cat="exploration", sec="5.5", tech="deviation-bounded exhaustive enumeration of input vectors (all <=2 deviations + full product of small dimensions) against an independent reference",
+   text="Every input vector that departs from the default in at most two of eleven dimensions (structured 128-bit alphabets incl. one-hot sweeps, SQN^AK, AMF, 2-/3-digit MNC, SUPI length 5..15, 4x4 algorithm ids, OPc/OP-only) plus the full product of the small dimensions, each compared with RES*/K_AMF/K_NAS computed by an independent TS 35.206 + TS 33.501 Annex A implementation.",
+   note="refcrypto Milenage anchored on TS 35.207 set 1; crypto/hmac, crypto/sha256, crypto/aes trusted; 128-bit values outside the alphabet not enumerated"),
+ "C11": dict(cat="exploration", sec="5.11", tech="exhaustive enumeration of all PLMNs x MSIN lengths with an independent decoder as oracle",
+   text="All 1000x1100 PLMNs x MSIN lengths 1..10: EncodeSuci decoded by an independent TS 24.501 9.11.3.4 decoder, PLMN octets compared with a reference encoder and with nasConvert.PlmnIDToNas; the PLMN placed in NG Setup / user-location IEs and the SUCI inside Registration/Deregistration Request checked on the built messages.",
+   note="MSIN digits are pseudo-random from VERIF_SEED plus fixed patterns; PLMN and lengths exhaustive"),
+ "C15": dict(cat="exploration", sec="5.15", tech="exhaustive enumeration of SQN pairs, AMF values and all single-bit/single-octet corruptions against an independent reference verdict",
+   text="f1..f5*, OPc and AUTN generation over one-at-a-time sweeps of K/OP/RAND and all 65536 AMF values; Milenage_check over the full product of 8x8 network/UE SQNs and, for every valid AUTN, every single-bit and single-octet corruption (same for AUTS) with the accept/resync/reject verdict computed by an independent TS 35.206 implementation.",
+   note="refcrypto anchored on all eight values of TS 35.207 set 1"),
+ "C16": dict(cat="exploration", sec="5.16", tech="exhaustive enumeration of every UE index 0..9999 for each initial-IMSI shape",
+   text="CreateUE called as main() calls it for every index 0..9999 from 14 initial IMSIs (leading zeros, 2-/3-digit MNC, 13..15 digits, MSINs near exhaustion) x 3 credential triples; pairwise distinctness of SUPIs and RAN-UE-NGAP-IDs, PLMN prefix, digit count, credentials and capability bits (all 4x4 algorithm pairs) checked on every context.",
+   note="IMSI shapes are an alphabet, indices exhaustive"),
+ "C17": dict(cat="exploration", sec="5.17", tech="exhaustive enumeration of whole input domains (2^24 AMF ids, 2^24 SDs, 1.1M PLMNs, all PCO lists <=3 units) with reference encoders and inverse checks",
+   text="Whole-domain sweeps where the domain is finite (PLMN, AMF-ID, SST, SD) and structured alphabets for addresses and PCO lists, each compared with the 3GPP encoding written independently and with inverse(conversion(x)) == x.",
+   note="IPv4-mapped IPv6 texts excluded; PCO ids/contents from a small alphabet"),
 }
 
 NOT_YET = {}
